@@ -28,7 +28,7 @@ def handle : Handler := fun j => do
     let shortage ← getInt j "shortage"
     let hist ← (← getArr j "hist").toList.mapM fun st => do
       match st.getArr? with
-      | .ok a => a.toList.mapM (parseOpt root)
+      | .ok a => (a.toList.filter (fun o => (o.getObjVal? "fs").toOption.isNone)).mapM (parseOpt root)
       | .error e => throw e
     let init := newCache (envAt false) [.specDirs [(root ++ "/P0").toUTF8.toList]]
     let (final, _) := hist.foldl (fun (acc : CState × Int) os =>
@@ -73,6 +73,7 @@ def handle : Handler := fun j => do
        (if shortLast && final.watcherLive then ["watcher-reused-released-descriptors"] else []) ++
        (if shortLast && final.fields.auto && !final.watcherLive then ["nil-watcher"] else []) ++
        (if getBoolD obs "late" false then ["directory-created-afterwards"] else []) ++
+       (if hist.any (· == []) then ["file-system-change-between-steps"] else []) ++
        (if hist.length ≥ 100 then ["long-history"] else [])))
   | "default" =>
     let same ← getBool obs "sameasfresh"
